@@ -112,7 +112,25 @@ func (e *EventEmitter) handleSubscriber(ctx context.Context, sub event.Subscript
 	wg.Add(1)
 	go func() {
 		defer wg.Done()
-		defer sub.Close()
+		defer func() {
+			// a wildcard subscription does not drain its channel while it closes:
+			// an emitter blocked on the full channel holds the lock of the bus
+			// that Close needs, and once this goroutine has stopped reading
+			// nobody would ever let it through. Keep reading until Close returns
+			closed := make(chan struct{})
+			go func() {
+				for {
+					select {
+					case <-sub.Out():
+					case <-closed:
+						return
+					}
+				}
+			}()
+
+			_ = sub.Close()
+			close(closed)
+		}()
 
 		for {
 			var e interface{}
